@@ -387,10 +387,43 @@ func runMesh(bi int, b behaviour, le *logrus.Entry, rows *[]map[string]any) {
 	emit(map[string]any{"e": "reset", "b": bi, "topo": b.Topo, "nodes": names})
 	subs := map[string]bool{}
 	_ = vio.Rand
+	// announced(): does the last subscription announcement on every link agree with the node's local subscription?
+	// (used only to decide when waiting is over: the Execute loop announces changes on a 100 ms tick that can be late under load)
+	announced := func() bool {
+		last := map[[2]string]bool{}
+		m.net.mu.Lock()
+		for _, e := range m.net.sent {
+			if e.Injected {
+				continue
+			}
+			for _, so := range e.Pkt.GetSubscriptions() {
+				if so.GetChannelId() == channel {
+					last[[2]string{e.From, e.To}] = so.GetSubscribe()
+				}
+			}
+		}
+		m.net.mu.Unlock()
+		for _, n := range names {
+			for to := range m.nodes[n].ends {
+				if m.nodes[to] == nil {
+					continue
+				}
+				if last[[2]string{n, to}] != subs[n] {
+					return false
+				}
+			}
+		}
+		return true
+	}
 	settle := func() {
 		// the Execute loop announces subscription changes on a 100 ms tick
-		time.Sleep(120 * time.Millisecond)
-		m.net.quiet(130 * time.Millisecond)
+		for dl := time.Now().Add(10 * time.Second); ; {
+			time.Sleep(120 * time.Millisecond)
+			m.net.quiet(130 * time.Millisecond)
+			if announced() || time.Now().After(dl) {
+				return
+			}
+		}
 	}
 	taken, takenR := 0, 0
 	checkpoint := func() {
@@ -459,6 +492,10 @@ func runMesh(bi int, b behaviour, le *logrus.Entry, rows *[]map[string]any) {
 		})
 	}
 	nextLink := uint64(len(b.Topo) + 100)
+	linkIDs := map[string]uint64{}
+	for li, e := range b.Topo {
+		linkIDs[e[0]+"|"+e[1]] = uint64(li + 1) // as assigned by newMesh
+	}
 	for _, s := range b.Steps {
 		switch s.A {
 		case "init":
@@ -482,9 +519,24 @@ func runMesh(bi int, b behaviour, le *logrus.Entry, rows *[]map[string]any) {
 			if s.W {
 				checkpoint()
 			}
+		case "relink":
+			// the pubsub stream of an existing link is re-opened: same peers, same link id; the replaced session ends afterwards
+			id := linkIDs[s.Subs[0]+"|"+s.Subs[1]]
+			if id == 0 {
+				id = linkIDs[s.Subs[1]+"|"+s.Subs[0]]
+			}
+			if id == 0 {
+				vio.Fatal("relink of an unknown link %v", s.Subs)
+			}
+			m.connect(s.Subs[0], s.Subs[1], id)
+			emit(map[string]any{"e": "relink", "a": s.Subs[0], "b": s.Subs[1]})
+			if s.W {
+				checkpoint()
+			}
 		case "linkup":
 			// a link comes up while the mesh is running (FloodSubDyn.tla)
 			nextLink++
+			linkIDs[s.Subs[0]+"|"+s.Subs[1]] = nextLink
 			m.connect(s.Subs[0], s.Subs[1], nextLink)
 			emit(map[string]any{"e": "linkup", "a": s.Subs[0], "b": s.Subs[1]})
 			if s.W {
